@@ -60,6 +60,17 @@ def resolve_capture(m, q, e):
     return None, None, None
 
 
+def full_range(e, name):
+    """e = gen_range(rng, <name>.0 .. <name>.1) – the whole configured half-open range"""
+    if not (e[0] == "call" and e[4] == "gen_range" and len(e[2]) == 2):
+        return False
+    r = e[2][1]
+    if not (r[0] == "agg" and r[2].endswith("Range::Range") and len(r[3]) == 2):
+        return False
+    lo, hi = r[3]
+    return path_text(lo).endswith(name + ".0") and path_text(hi).endswith(name + ".1")
+
+
 def run(ctx):
     m = Model(ctx)
     fns = agent_fns(ctx)
@@ -110,7 +121,7 @@ def run(ctx):
                 reason = None
                 if b and b[0] == "Mul":
                     for a, t in ((b[1], b[2]), (b[2], b[1])):
-                        if a[0] == "call" and a[4] == "gen_range" and mentions(a, "tick_range") and path_text(t).endswith("tick_size"):
+                        if full_range(a, "tick_range") and path_text(t).endswith("tick_size"):
                             reason = "tick drawn from tick_range times the agent's tick_size"
                 elif x[0] == "call" and x[4] == "round_price_up" and x[2][1] == ("param", [i + 1 for i, n in enumerate(f.params) if n == "tick_size"][0] if "tick_size" in f.params else 0, "tick_size"):
                     a = x[2][0]
@@ -214,6 +225,35 @@ def run(ctx):
                 okp = all(x[0] == "call" and x[4] in helpers and "place_" in x[4] for x in valts)
                 ctx.check(okp, "ownership", tag + "|list-push", p.loc(), "only ids returned by the agent's own submissions are added to its list", "foreign id %s added to the agent's list" % render(v))
         ctx.check(okw, "ownership", tag + "|list", ow[0].loc() if ow else ctx.loc(f), "own id list := survivors of the cancellation filter + ids of own new orders", "own id list assigned %s" % "; ".join(w.text() for w in ow))
+        # conversely every limit order the agent places is remembered (otherwise it can never be cancelled again)
+        if okw and cl:
+            for c in sites:
+                if is_env_call(c, "place_order"):
+                    continue   # market orders never rest
+                res = c.result
+                remembered = [p for p in pushes if any(x == res for x in walk(p.args[1]))]
+                nxt = [x for x in q.body.succs(c.b) if not q.body.blocks[x].cleanup]
+                heads = set(q.body.loop_heads()) | set(q.body.return_blocks())
+                okr = bool(remembered) and bool(nxt) and all(q.cfg.all_paths_pass(nxt[0], h, [p.b for p in remembered]) for h in heads if h in q.cfg.reach_from(nxt[0]))
+                ctx.check(okr, "ownership", "%s|%s|remembered" % (tag, c.name), c.loc(), "the id returned by %s is added to the agent's own list on every path" % c.name,
+                          "the id returned by %s is not (always) added to the agent's list: the resting order can never be cancelled by its owner" % c.name)
+    # constructors: the agent's trader ids are exactly agent_id_start .. agent_id_start + n_agents
+    for f in fns:
+        if f.name == "new" and (f.impl_adt or "").split("::")[-1] in ("NoiseAgent", "NoiseMarketAgent", "MomentumAgent", "MomentumMarketAgent"):
+            r = m.q(f).ret()
+            if r[0] == "agg":
+                fv = dict(zip(r[4], r[3]))
+                t = fv.get("trader_ids")
+                ok = False
+                if t is not None:
+                    rg = [x for x in walk(t) if x[0] == "agg" and x[2].endswith("Range::Range") and len(x[3]) == 2]
+                    if len(rg) == 1 and t[0] == "call" and t[4] == "collect":
+                        lo, hi = rg[0][3]
+                        b = unwrap_bin(hi)
+                        ok = lo[0] == "param" and lo[2] == "agent_id_start" and b is not None and b[0] == "Add" and \
+                            ((b[1] == lo and any(x[0] == "param" and x[2] == "n_agents" for x in walk(b[2]))) or (b[2] == lo and any(x[0] == "param" and x[2] == "n_agents" for x in walk(b[1]))))
+                ctx.check(ok, "ownership", "ctor-ids|" + f.impl_adt.split("::")[-1], ctx.loc(f), "%s::new: trader ids = agent_id_start .. agent_id_start + n_agents" % f.impl_adt.split("::")[-1],
+                          "trader id table initialised from %s" % (render(t)[:120] if t else "?"))
     # constructors: tick_size field <- params.tick_size
     for f in fns:
         if f.name == "new" and (f.impl_adt or "").split("::")[-1] in ("NoiseAgent", "NoiseMarketAgent", "MomentumAgent", "MomentumMarketAgent"):
@@ -296,7 +336,7 @@ def run(ctx):
             p = pc[0]
             tid = p.arg_named("trader_id")
             vol = p.arg_named("vol")
-            okargs = tid[0] == "conv" and same(tid[1], idx) and vol[0] == "call" and vol[4] == "gen_range" and mentions(vol, "vol_range")
+            okargs = tid[0] == "conv" and same(tid[1], idx) and full_range(vol, "vol_range")
             if "asset" in p.formals:
                 okargs = okargs and mentions(p.arg_named("asset"), "asset")
             ctx.check(okargs, "ownership", tag + "|place-args", p.loc(), "trader id = slot index, volume drawn from vol_range%s" % (", own asset" if "asset" in p.formals else ""),
